@@ -62,10 +62,19 @@ def draw_values(rng, m, vclass):
         return rng.choice([1e-12, 1e-6, 1.0, 1e6, 1e12], size=m) * rng.choice([1.0, 1.0, -1.0], size=m)
     if vclass == "ints":
         return rng.integers(-3, 4, size=m).astype(float)
+    if vclass == "nonpos_zero":
+        # all values <= 0 and the maximum is exactly 0: group_min / group_max = x / 0 = -inf
+        v = 0.0 - rng.integers(0, 4, size=m).astype(float)
+        v[int(rng.integers(0, m))] = 0.0
+        return np.where(v == 0, 0.0, v)  # no negative zeros: the sign of x/0 would depend on which zero is the maximum
+    if vclass == "with_inf":
+        v = rng.random(m).round(3) + 0.1
+        v[int(rng.integers(0, m))] = float(gen.pick(rng, [np.inf, -np.inf]))
+        return v
     raise ValueError(vclass)
 
 
-VCLASSES = ["random", "unit", "equal", "zeros_mixed", "all_zero", "negative", "magnitudes", "ints"]
+VCLASSES = ["random", "unit", "equal", "zeros_mixed", "all_zero", "negative", "magnitudes", "ints", "nonpos_zero", "with_inf"]
 
 
 class TableMetric:
@@ -133,9 +142,15 @@ def run_case(cls, key, seed, ctx):
     nmet = 2 if form == "dict2" else 1
     vclass = [gen.pick(rng, VCLASSES) for _ in range(nmet)]
     as_int = [full_table and vc == "ints" and rng.random() < 0.8 for vc in vclass]
+    if nmet == 2:
+        as_int[0] = False  # metric 0 of a two-metric dict may get NaN cells
     tables = []
     for j in range(nmet):
         cv = draw_values(rng, len(cells), vclass[j])
+        if j == 0 and nmet == 2 and len(cells) >= 3 and rng.random() < 0.35:
+            # a metric that is undefined (NaN) on some NON-EMPTY groups: those cells are skipped for THIS metric only
+            k_nan = int(rng.integers(1, max(2, len(cells) // 2)))
+            cv[rng.permutation(len(cells))[:k_nan]] = np.nan
         ov = {}
         for si in range(len(strata)):
             members = [ci for ci, c in enumerate(cells) if c[0] == si]
@@ -145,11 +160,11 @@ def run_case(cls, key, seed, ctx):
                 oc = gen.pick(rng, ["inside", "zero", "outside", "same_class"])
                 vals = cv[members]
                 if oc == "inside":
-                    ov[si] = float(np.mean(vals))
+                    ov[si] = float(np.nanmean(vals)) if np.isfinite(vals).any() else 0.5
                 elif oc == "zero":
                     ov[si] = 0.0
                 elif oc == "outside":
-                    ov[si] = float(np.max(vals) + abs(rng.normal()) + 0.5)
+                    ov[si] = float(np.nanmax(np.where(np.isfinite(vals), vals, np.nan)) + abs(rng.normal()) + 0.5) if np.isfinite(vals).any() else 1.5
                 else:
                     ov[si] = float(draw_values(rng, 1, vclass[j])[0])
                 if as_int[j]:
@@ -210,8 +225,9 @@ def check_table(ctx, mf, name, form, nctl, strata, cells, cv, ov):
         vals = [float(cv[ci]) for ci, c in enumerate(cells) if c[0] == si]
         if not vals:
             continue
+        defined = [v for v in vals if not isnan(v)]  # NaN-valued cells are skipped, like empty combinations
         o = float(ov[si])
-        exp = {("group_min", None): [min(vals)], ("group_max", None): [max(vals)]}
+        exp = {("group_min", None): [min(defined) if defined else float("nan")], ("group_max", None): [max(defined) if defined else float("nan")]}
         for method in METHODS:
             exp[("difference", method)] = [R.agg_difference(vals, o, method)]
             r = R.agg_ratio(vals, o, method)
@@ -249,9 +265,9 @@ def check_table(ctx, mf, name, form, nctl, strata, cells, cv, ov):
             ctx.check(isnan(db) or isnan(dt) or db <= 2 * dt * (1 + 1e-12) + 1e-300, "between_exceeds_twice_to_overall", between=repr(db),
                       to_overall=repr(dt), wit=wit)
             ctx.check(isnan(rt) or rt <= 1, "ratio_above_one:to_overall", got=repr(rt), wit=wit)
-            if max(vals) > 0:
+            if defined and max(defined) > 0:
                 ctx.check(isnan(rb) or rb <= 1, "ratio_above_one:between_groups", got=repr(rb), wit=wit)
-            if min(vals) >= 0 and o >= 0:
+            if defined and min(defined) >= 0 and o >= 0:
                 ctx.check(isnan(rb) or rb >= 0, "ratio_negative_for_nonnegative_metric:between_groups", got=repr(rb), wit=wit)
                 ctx.check(isnan(rt) or rt >= 0, "ratio_negative_for_nonnegative_metric:to_overall", got=repr(rt), wit=wit)
 
